@@ -40,12 +40,14 @@ def ground_size(spec):
     for kind, s in spec['sentences']:
         if kind == 'choice':
             n += u ** (3 if s['foreach'] else 2)
+        elif kind == 'there':
+            n += 1
         else:
             cls = s['body'] if kind == 'def' else s['whenpart'] + s['main']
             labels = set()
             for c in cls:
                 labels.add(c['slabel']); labels.add(c['olabel'])
-            n += u ** len(labels) * (1 + len(cls)) * (len(s['oneof'][1]) if s.get('oneof') else 1)
+            n += u ** len(labels) * (1 + len(cls)) * (len(s['oneof'][1]) if s.get('oneof') else 1) * (len(s['oneof2'][1]) if s.get('oneof2') else 1)
     return max(1, n)
 
 
@@ -56,7 +58,7 @@ def run(tier, seed):
     tie_ok, tout = translate.run(['tables'])
     proof = common.build_property(PID, extra=['Cnl/CoreCases.vo'])
     n = 400 if tier == 'thorough' else 36
-    specs = []
+    specs = gen_core.directed()
     while len(specs) < n:
         s = gen_core.gen(rnd, max_dom=rnd.choice([1, 2, 2, 3]) if tier == 'thorough' else rnd.choice([1, 2, 2, 2]))
         specs.append(s)
